@@ -27,6 +27,15 @@ CHECKS.update({
              text="Damage kinds (file missing / unparseable / other valid JSON / directory renamed) are actions of the model; TLC explores their combinations on 2-3 jobs with and without cache together with check, repair, restart, open-by-id and checks NeverAcceptWrong, RepairFrame, RepairRestores; every edge is replayed and judged (check names exactly the damaged jobs, a fresh session never returns a state point hashing elsewhere, repair restores what the cache knows and never touches documents/data). Truncation at every byte offset and 7 substitution classes at every offset of 4 state point files are enumerated, classified independently and judged by the same post-conditions.",
              note=WS_NOTE + "; Python's json is the independent parser for classification; listing order fixed to sorted during repair()", ref="5 C09", level="model_checking"),
 })
+FS_NOTE = "trusted: TLC; the in-process file-system shim harness/fsshim.py (audited against strace in the thorough tier: every mutating syscall under the sandbox has a shim event; freeze vs os._exit cross-checked); the kernel's rename(2) atomicity (process crashes, not power loss); errno faults are injected at mutating steps (stat-type predicates are not failed: os.path.isdir/isfile read every error as 'not there', like ENOENT which the property excludes)"
+CHECKS.update({
+ "C10": dict(technique="explicit TLA+ model of a POSIX file system and of the write protocols (spec/lifecycle/PosixFs.tla, Lifecycle.tla) checked by TLC in every state incl. after Crash and at every reader position; real writes recorded by an fs shim and validated by TLC (LifecycleTrace.tla); every crash point / torn-prefix class / reader position re-executed on the real code and judged by plain json/gzip reads",
+             text="TLC checks OldOrNew, NeverTornOrEmpty, LitterOnlyTmp in every reachable state of the document / state point / cache / buffered-flush write protocols (crash anywhere, four torn-prefix classes, one errno failure, a concurrent reader at any position) and is required to FIND the violation on the in-place alternative protocol (model sanity). The real protocols are recorded step by step and validated against the model; then each crash@k / torn@k,p / reader position is executed for real (default and disable_multithreading configurations) and the target file is read raw: it must parse to old or new, with at most a stray temp file.",
+             note=FS_NOTE, ref="5 C10, 10.5", engine="tlc+fsshim"),
+ "C11": dict(technique="explicit TLA+ model of the life-cycle operations as file-system step sequences with crash / torn write / errno outcomes (Lifecycle.tla over PosixFs.tla) checked by TLC (<=1 fault exhaustively, <=2 by -simulate); every TLC fault script executed on the real code under the fs shim and the resulting real traces validated back by TLC; recovery judged through a fresh Project",
+             text="TLC checks OthersUntouched, PayloadUnderOneId, ValidOrReported, NoForgery, ErrorNotSilent over init / re-key / move / clone / remove / clear scenarios (fresh, existing, colliding destination; nested payload; an untouched second job) with a crash before or inside any step, or one of EIO ENOSPC EACCES EXDEV EROFS at any mutating step followed by the code's handler path. Each fault script is run for real (crash = freeze of all later effects, torn writes, raised OSError), then a fresh session's check(), the directory listing and byte snapshots are compared with the model state and judged by the property's post-conditions; double faults are sampled from the seed.",
+             note=FS_NOTE, ref="5 C11, 10.5", engine="tlc+fsshim", level="model_checking"),
+})
 def main():
     checks = []
     for pid, c in CHECKS.items():
@@ -46,7 +55,7 @@ def main():
         "version": 1,
         "setup_cmd": "cd /verif && ./setup.sh",
         "hooks": {"guard": "SIGNAC_VERIF", "enable": "export SIGNAC_VERIF=1 (set by ./check): activates the out-of-tree recorder / file-system shim in /verif/harness; signac sources carry no hook", "baseline_off_cmd": "cd /repo && env -u SIGNAC_VERIF /venv/bin/python -m pytest -ra -q -p no:cacheprovider --timeout=900 --continue-on-collection-errors", "source_commits": [], "add_only": True},
-        "engines": [{"name": "tlc+replay", "path": "/verif/harness", "serves_properties": sorted(CHECKS), "kind_free_text": "explicit TLA+ specifications under /verif/spec checked with TLC; bound to the code by replaying TLC-generated cases/behaviours into signac and by validating recorded executions of signac against the specification"}],
+        "engines": [{"name": "tlc+fsshim", "path": "/verif/harness/fsshim.py", "serves_properties": ["C10", "C11"], "kind_free_text": "in-process interposition on the file-system entry points (record / crash@k freeze / torn@k,p / fail@k,errno) driving fault scripts generated by TLC"}, {"name": "tlc+replay", "path": "/verif/harness", "serves_properties": sorted(CHECKS), "kind_free_text": "explicit TLA+ specifications under /verif/spec checked with TLC; bound to the code by replaying TLC-generated cases/behaviours into signac and by validating recorded executions of signac against the specification"}],
         "checks": checks,
         "not_applicable": na,
         "notes": "Every check: ./check <ID> --tier quick|thorough. Exit 0 held / 1 VIOLATION / 2 machinery failure. Known findings: /verif/known_findings.json.",
